@@ -116,6 +116,25 @@ def rule_O5(ctx):
         if isinstance(d, ast.Delete) and any(
                 x[0] == "truthy" and "startswith('__')" in x[1].replace('"', "'") for x in fg.atoms(d)):
             strip = True
+    # ... or in a helper of the same class that finalize_context hands the context to
+    if not strip and f.cls is not None:
+        for c in calls_in(f.node):
+            if isinstance(c.func, ast.Attribute) and isinstance(c.func.value, ast.Name) and \
+                    c.func.value.id in ("self", "cls"):
+                h = ctx.prog.lookup_method(f.cls, c.func.attr)
+                if h is None or h is f:
+                    continue
+                hg = FuncGuards(ctx.prog, h)
+                for c2 in calls_in(h.node):
+                    if callee_name(c2) == "pop" and any(
+                            x[0] == "truthy" and "startswith('__')" in x[1].replace('"', "'")
+                            for x in hg.atoms(c2)):
+                        strip = True
+                for d in ast.walk(h.node):
+                    if isinstance(d, ast.Delete) and any(
+                            x[0] == "truthy" and "startswith('__')" in x[1].replace('"', "'")
+                            for x in hg.atoms(d)):
+                        strip = True
     # ... or builds the outgoing context from the entries that do not start with '__': the
     # first element of the returned tuple derives from a comprehension with that filter and
     # is afterwards only merged with the published variables
